@@ -166,10 +166,14 @@ protected:
   PerBackend& b;
 
   void destruct() {
+    if (offset == ~0U) // moved from
+      return;
+
     auto& tp = getThreadPool();
     for (unsigned n = 0; n < tp.getMaxSockets(); ++n)
       reinterpret_cast<T*>(b.getRemote(tp.getLeaderForSocket(n), offset))->~T();
     b.deallocOffset(offset, sizeof(T));
+    offset = ~0U;
   }
 
 public:
@@ -187,10 +191,11 @@ public:
   }
 
   PerSocketStorage(PerSocketStorage&& o)
-      : offset(std::move(o.offset)), b(getPPSBackend()) {}
+      : offset(o.offset), b(getPPSBackend()) {
+    o.offset = ~0U; // the source no longer owns the storage
+  }
   PerSocketStorage& operator=(PerSocketStorage&& o) {
-    destruct();
-    offset = std::move(o.offset);
+    std::swap(offset, o.offset);
     return *this;
   }
 
